@@ -68,6 +68,13 @@ def gen_content(rng, max_top=3, max_children=3, src=None, float_ts=False):
     for _ in range(rng.randint(0, 4)):
         t = pick(rng, ["md5", "sha1", "sha256", "sha512"])
         K["checksums"]["%s/%s" % (pick(rng, ["images", "repodata", "LiveOS", "Images/Sub"]), pick(rng, IMAGE_NAMES + ["repomd.xml"]))] = [t, hexstr(rng, {"md5": 32, "sha1": 40, "sha256": 64, "sha512": 128}[t])]
+    # entries planted directly in the public table (not through Checksums.add, which normalises): relative but
+    # not in normal form - legal option names, must come back verbatim
+    K["raw_checksums"] = {}
+    if rng.random() < 0.3:
+        for _ in range(rng.randint(1, 2)):
+            key = pick(rng, ["./repodata/repomd.xml", "a//b.img", "x/../y.img", "dir/sub/", "./images/./pxeboot/vmlinuz"])
+            K["raw_checksums"][key] = ["sha256", hexstr(rng, 64)]
     return K
 
 
@@ -125,6 +132,8 @@ def build_ops(K, rng, slot=0, permute=True, vid_base=0):
         if rng.random() < 0.3:
             dec = pick(rng, ["./" + p, p.replace("/", "//", 1), "x/../" + p])
         rest.append({"op": "ti_checksum_add", "path": dec, "ctype": t, "value": v})
+    for p, (t, v) in K.get("raw_checksums", {}).items():
+        rest.append({"op": "ti_checksum_raw", "path": p, "ctype": t, "value": v})
     if permute:
         rng.shuffle(rest)
     # image tables need their platform listed before validation only at dump time: order is free
@@ -141,7 +150,10 @@ def top_keys(K):
 def valid_mutation(K, rng, slot=0):
     sl = {"slot": slot} if slot else {}
     r = rng.random()
-    if r < 0.3:
+    if r < 0.22:
+        # the same object is re-used for another architecture (one .treeinfo per arch)
+        o = {"op": "ti_set", "sec": "tree", "field": "arch", "value": pick(rng, [a for a in pools.ARCHES if a != K["tree"]["arch"]])}
+    elif r < 0.3:
         o = {"op": "ti_set", "sec": "tree", "field": "build_timestamp", "value": rng.randint(2, 10 ** 9)}
     elif r < 0.5:
         o = {"op": "ti_set", "sec": "release", "field": "name", "value": pick(rng, TI_NAMES) + " II"}
@@ -198,7 +210,7 @@ def poison_sites(K):
         sites.append({"kind": "stage2", "field": "mainimage", "bad": "/abs/install.img", "good": None})
     sites.append({"kind": "checksum-abs", "path": "/abs/file", "ctype": "sha256", "value": "0" * 64})
     for f in ("discnum", "totaldiscs"):
-        for b in ["1", 1.5]:
+        for b in ["1", 1.5, "", 0.0, []]:
             sites.append({"kind": "media", "field": f, "bad": b, "good": K["media"]})
     return sites
 
